@@ -126,6 +126,11 @@ def numeric_series(rfmod, rs, k):
     ev.append(("zero_pulse", float(max(np.abs(bz).max(), np.abs(np.abs(az) - 1).max())), "abrm"))
     ab_, bb_ = rfmod.sim.abrm(r1, x, balanced=True)
     ev.append(("unitarity", unit(ab_, bb_), "abrm balanced"))
+    # balanced = the plain simulation followed by the rewinder, a rotation about z by -pi x (half of the 2 pi x the gradient
+    # accumulates): (a, b) -> (e^{+i pi x / 2} a, e^{-i pi x / 2} b); the sign of x matters
+    au_, bu_ = rfmod.sim.abrm(r1, x)
+    rew = np.exp(1j * np.pi * x / 2)
+    ev.append(("composition", float(max(np.abs(rew * au_ - ab_).max(), np.abs(np.conj(rew) * bu_ - bb_).max())), "abrm balanced vs plain + rewinder"))
     nd = int(rs.randint(1, 4))
     xn = rs.randn(4, nd)
     G1, G2 = rs.randn(n1, nd), rs.randn(n2, nd)
